@@ -65,12 +65,12 @@ def convergence_facts(f, cfg: CFG):
     norm_params = {p for p in f.params if p == "norm"} | {"norm"}
 
     def expr_deps(e: ast.expr, state) -> frozenset:
+        # direct dependencies only: the transitive closure is taken where the facts are used, so that a fact
+        # does not change identity when an operand's own provenance differs between loop iterations
         deps = set()
-        known = {fa[1]: fa[2] for fa in state if fa[0] == "val"}
         for n in ast.walk(e):
             if isinstance(n, ast.Name) and isinstance(n.ctx, ast.Load):
                 deps.add(n.id)
-                deps |= set(known.get(n.id, ()))
             if isinstance(n, ast.Call) and isinstance(n.func, ast.Attribute) and n.func.attr == "constr":
                 deps.add(POS)
             if isinstance(n, ast.Attribute) and n.attr == "pos":
@@ -151,7 +151,17 @@ def rule_r1_r2(rep, program, et, prop=PROP, only_projection=False, rule_ids=("R1
             if n not in IN:
                 continue  # unreachable
             st = IN[n]
-            vals = {fa[1]: fa[2] for fa in st if fa[0] == "val"}
+            direct = {fa[1]: set(fa[2]) for fa in st if fa[0] == "val"}
+            vals = {}
+            for v0 in direct:
+                seen_d, todo = set(), list(direct[v0])
+                while todo:
+                    d0 = todo.pop()
+                    if d0 in seen_d:
+                        continue
+                    seen_d.add(d0)
+                    todo.extend(direct.get(d0, ()))
+                vals[v0] = seen_d
             lts = [(fa[1], fa[2]) for fa in st if fa[0] == "lt"]
             retnames = {x.id for x in ast.walk(n.ast) if isinstance(x, ast.Name)}
             ok = False
@@ -555,9 +565,40 @@ def rule_r7(rep, program):
     bt = program.method("DynamicIntegrationTransition", "_build_tree")
     body_txt = [norm(s) for s in ast.walk(bt.node) if isinstance(s, ast.Assign)]
     hcalls = [s for s in ast.walk(bt.node) if isinstance(s, ast.Assign) and isinstance(s.value, ast.Call) and call_name(s.value).endswith("system.h")]
+    def _nan_to_inf(st, v):
+        """st maps a NaN value of the local v to +inf and leaves other values alone"""
+        isnan = (f"np.isnan({v})", f"isnan({v})", f"math.isnan({v})", f"{v} != {v}")
+        inf = ("np.inf", "inf", "math.inf", "float('inf')", "float(\"inf\")")
+        if isinstance(st, ast.Assign) and len(st.targets) == 1 and norm(st.targets[0]) == v:
+            e = st.value
+            if isinstance(e, ast.IfExp):
+                if norm(e.test) in isnan and norm(e.body) in inf and norm(e.orelse) == v:
+                    return True
+                if norm(e.test) in tuple(f"not {t}" for t in isnan) and norm(e.orelse) in inf and norm(e.body) == v:
+                    return True
+            if isinstance(e, ast.Call) and call_name(e) == "np.where" and len(e.args) == 3 and norm(e.args[0]) in isnan and norm(e.args[1]) in inf and norm(e.args[2]) == v:
+                return True
+            if isinstance(e, ast.Call) and call_name(e) == "np.nan_to_num" and e.args and norm(e.args[0]) == v and any(k.arg == "nan" and norm(k.value) in inf for k in e.keywords) and not any(k.arg in ("posinf", "neginf") for k in e.keywords):
+                return True
+        if isinstance(st, ast.If) and not st.orelse and norm(st.test) in isnan and len(st.body) == 1 and isinstance(st.body[0], ast.Assign) and norm(st.body[0].targets[0]) == v and norm(st.body[0].value) in inf:
+            return True
+        return False
+
+    from ..model import _blocks
+
     for s in hcalls:
         v = norm(s.targets[0])
-        san = any(t in body_txt for t in (f"{v} = np.inf if np.isnan({v}) else {v}", f"{v} = {v} if not np.isnan({v}) else np.inf"))
+        san = False
+        for block in _blocks(bt.node):
+            if not any(x is s for x in block):
+                continue
+            after = block[[i for i, x in enumerate(block) if x is s][0] + 1 :]
+            for x in after:
+                if _nan_to_inf(x, v):
+                    san = True
+                    break
+                if any(isinstance(n, ast.Name) and n.id == v for n in ast.walk(x)):
+                    break  # the value is used (or re-bound) before being sanitised
         r.inst({"function": bt.qualname, "energy var": v, "sanitised": san})
         if not san:
             r.violate(PROP, f"{bt.qualname}:h-not-sanitised:{v}", f"the energy `{v}` of a new tree node is not mapped NaN -> inf before being weighted / divergence-checked: a NaN energy yields NaN weights and can be selected", node=s, file=bt.file)
